@@ -11,7 +11,7 @@ from . import c01, c02, c03
 ID = "C05"
 LEVEL = "proof"
 PROP_FILE = "Properties/C05.v"
-PROOF_FILES = ["Proofs/SpfsFinal.v", "Proofs/SpfsProofs.v", "Proofs/UspfsFinal.v", "Proofs/UspfsProofs.v", "Proofs/ThlFinal.v", "Proofs/ThlProofs.v", "Proofs/ExhProofs.v", "Proofs/DpProofs.v", "Proofs/EntryProofs.v",
+PROOF_FILES = ["Proofs/AllAnyProofs.v", "Proofs/SpfsFinal.v", "Proofs/SpfsProofs.v", "Proofs/UspfsFinal.v", "Proofs/UspfsProofs.v", "Proofs/ThlFinal.v", "Proofs/ThlProofs.v", "Proofs/ExhProofs.v", "Proofs/DpProofs.v", "Proofs/EntryProofs.v",
                "Proofs/ReconProofs.v", "Proofs/PathFacts.v", "Model/Thl.v", "Model/Spfs.v", "Model/Uspfs.v", "Model/Recon.v", "Model/Entry.v"]
 TRUSTED = c01.TRUSTED + c02.TRUSTED + c03.TRUSTED
 ASSUMES = ["binary trees", "coherent cost vectors (F-COHERENCE)"]
@@ -20,7 +20,7 @@ RULE = ("same inputs as C01-C03 (coherent costs); for each, the ALL result of th
 OPEN_GOALS: list = []
 TECHNIQUE = "Coq proof of exactness of ALL / singleton ANY for thl, exh, base/ext SPFS and base/ext USPFS (Entry tag laws + decode soundness and completeness); complete optimal sets also computed by a brute-force oracle"
 LEVEL_TEXT = ("Machine-checked inside the coherent region (exh: any costs): for thl, exh, base/ext SPFS the ALL result is exactly the set of minimum-cost solutions, without repetition; for base/ext USPFS exactly the "
-              "minimum-cost canonical solutions; under ANY exactly one solution, member of that set (SPFS: none iff no solution exists); all returned solutions have the same cost; thl = exh. "
+              "minimum-cost canonical solutions; under ANY exactly one solution, member of that set (SPFS: none iff no solution exists); all returned solutions have the same cost; thl = exh; for the unordered solvers the English clause reads through C05_uspfs_all_exact_global (ALL = the canonical solutions whose cost is minimal among ALL valid labellings). "
               "The models agree with the code on ALL sets and ANY membership, and the ALL sets are compared with complete (canonical) optimal sets computed by brute force.")
 LEVEL_NOTE = "Trusted: Coq kernel, hand-written models, correspondence, the independent Python oracle. No axioms."
 
